@@ -20,6 +20,11 @@ class VirtualLoop(asyncio.SelectorEventLoop):
 
     def _run_once(self) -> None:  # type: ignore[override]
         if not self._ready and self._scheduled:  # type: ignore[attr-defined]
+            # real I/O first (signals arrive through the self-pipe): never jump the clock over it
+            events = self._selector.select(0)  # type: ignore[attr-defined]
+            if events:
+                self._process_events(events)  # type: ignore[attr-defined]
+        if not self._ready and self._scheduled:  # type: ignore[attr-defined]
             sched = self._scheduled  # type: ignore[attr-defined]
             while sched and sched[0]._cancelled:
                 h = heapq.heappop(sched)
